@@ -642,3 +642,5 @@ func joinOrDash(xs []string) string {
 	}
 	return strings.Join(xs, ",")
 }
+
+func bytesReader(b []byte) *bytes.Reader { return bytes.NewReader(b) }
